@@ -46,6 +46,64 @@ def fmt(rm):
     return {">".join(k): canon.fs(v) for k, v in sorted(rm.items())}
 
 
+def _feasible_random_successor(r, rm, winners, piles, base, got, seam_log, cls_names):
+    wset = set(winners)
+
+    def fin(rk):
+        return tuple(c for c in rk if c not in wset)
+
+    base_final = {}
+    for rk, wt in base.items():
+        f = fin(rk)
+        if f:
+            base_final[f] = base_final.get(f, Fraction(0)) + wt
+    target = {}
+    for f in set(got) | set(base_final):
+        d = got.get(f, Fraction(0)) - base_final.get(f, Fraction(0))
+        if d < 0 or d.denominator != 1:
+            raise Mismatch("random-successor", r, f"ballots after the round {fmt(got)} are not the untouched ballots {fmt(base_final)} plus whole transferred ballots")
+        if d:
+            target[f] = int(d)
+    types = []
+    need = {}
+    real_choice = False
+    for w, (pile, k) in piles.items():
+        need[w] = k
+        cnt = {}
+        for b in pile:
+            key = tuple(x[0] for x in b)
+            cnt[key] = cnt.get(key, 0) + 1
+        if 0 < k < len(pile) and len(cnt) >= 2:
+            real_choice = True
+        for key, n in sorted(cnt.items()):
+            types.append((w, fin(key), n))
+
+    def dfs(i, need, target):
+        if i == len(types):
+            return all(v == 0 for v in need.values()) and all(v == 0 for v in target.values())
+        w, f, n = types[i]
+        for x in range(min(n, need[w]), -1, -1):
+            if f and target.get(f, 0) < x:
+                continue
+            need[w] -= x
+            if f:
+                target[f] = target.get(f, 0) - x
+            ok = dfs(i + 1, need, target)
+            need[w] += x
+            if f:
+                target[f] += x
+            if ok:
+                return True
+        return False
+
+    if not dfs(0, dict(need), dict(target)):
+        raise Mismatch("random-successor", r, f"ballots after the round {fmt(got)} cannot be obtained by moving on {need} of the winners' transferable ballots")
+    if real_choice:
+        drew = [e for e in seam_log if e["ctx"] and e["ctx"][1] == r and e["ctx"][0] in cls_names and e["ctx"][2] and e["nt"]]
+        if not drew:
+            raise Mismatch("random-draw", r, "the surplus ballots were picked without any random draw although the choice was a real one")
+
+
 class Mismatch(Exception):
     def __init__(self, clause, rnd, msg):
         super().__init__(f"[{clause}] round {rnd}: {msg}")
@@ -155,6 +213,8 @@ def _check(e, profile, m, quota, simultaneous, kind, tiebreak, rec, seam_log, in
             else:
                 entries = _transfer_entries(seam_log, r, cls_names)
                 used = [False] * len(entries)
+                piles = {}
+                fallback = False
                 for w in sorted(winners):
                     pile = []
                     for rk, wt in sorted(rm.items()):
@@ -164,10 +224,13 @@ def _check(e, profile, m, quota, simultaneous, kind, tiebreak, rec, seam_log, in
                             pile += [[[c] for c in rk[1:]]] * int(wt)
                     # surplus, capped by what can move on (after the random_transfer fix: all transferable ballots move)
                     k = min(int(t[w]) - q, len(pile))
+                    piles[w] = (pile, k)
                     found = None
                     for i, en in enumerate(entries):
                         if used[i]:
                             continue
+                        if en["pop"] and not all(isinstance(b, dict) and "r" in b for b in en["pop"]):
+                            continue  # a draw over something else than ballots (e.g. indices): judged by feasibility below
                         pop = sorted([b["r"] for b in en["pop"]])
                         if pop == sorted(pile) and en["k"] == k:
                             found = i
@@ -175,21 +238,37 @@ def _check(e, profile, m, quota, simultaneous, kind, tiebreak, rec, seam_log, in
                     if found is None and k == 0:
                         continue  # nothing to draw: an implementation may skip the (empty) draw altogether
                     if found is None:
-                        raise Mismatch("random-draw", r, f"no draw of {k} from exactly the {len(pile)} transferable unit ballots of {w} was made (draws: {[(len(en['pop']), en['k']) for en in entries]})")
+                        ballot_draws = [en for i, en in enumerate(entries) if not used[i] and en["pop"] and all(isinstance(b, dict) and "r" in b for b in en["pop"])]
+                        if ballot_draws:
+                            raise Mismatch("random-draw", r, f"no draw of {k} from exactly the {len(pile)} transferable unit ballots of {w} was made (draws: {[(len(en['pop']), en['k']) for en in entries]})")
+                        fallback = True
+                        continue
                     used[found] = True
                     info["random_transfers"] += 1
                     for b in entries[found]["out"]:
                         rk = (w,) + tuple(x[0] for x in b["r"])
                         add[rk] = add.get(rk, Fraction(0)) + 1
-                if not all(used):
+                if fallback:
+                    # the implementation does not draw ballots at the seam in a recognisable form (e.g. it samples indices):
+                    # accept any successor that is the untouched ballots plus SOME sub-collection of each winner's
+                    # transferable unit ballots of the right size -- and require that a draw was made at all whenever
+                    # the choice was a real one (a deterministic pick is not a random transfer)
+                    _feasible_random_successor(r, rm, winners, piles, base, canon.rmap(pout), seam_log, cls_names)
+                    info["random_transfers"] += len(winners)
+                    add = None
+                elif not all(used):
                     raise Mismatch("random-draw", r, "more transfer draws than winners")
-            merged = dict(base)
-            for rk, wt in add.items():
-                merged[rk] = merged.get(rk, Fraction(0)) + wt
-            before = sum(merged.values(), Fraction(0))
-            new = strip(merged, winners)
-            if sum(new.values(), Fraction(0)) != before:
-                info["exhausted"] += 1
+            if add is None:
+                new = canon.rmap(pout)
+                before = None
+            else:
+                merged = dict(base)
+                for rk, wt in add.items():
+                    merged[rk] = merged.get(rk, Fraction(0)) + wt
+                before = sum(merged.values(), Fraction(0))
+                new = strip(merged, winners)
+                if sum(new.values(), Fraction(0)) != before:
+                    info["exhausted"] += 1
             newhop = [c for c in hop if c not in winners]
             elected_so_far += winners
         elif len(hop) == seats_left:
